@@ -22,6 +22,7 @@ use sciparse::{
     core::view::{View, ViewConversionError},
     dataplane_path::types::PathType,
     packet::view::ScionPacketView,
+    payload::ProtocolNumber,
 };
 use thiserror::Error;
 
@@ -69,6 +70,22 @@ pub enum PacketPolicyError<'a> {
     InvalidPathType(&'a ScionPacketView, PathType),
     #[error("packet does not have a valid source address")]
     InvalidSourceAddress(&'a ScionPacketView),
+}
+
+impl PacketPolicyError<'_> {
+    /// Whether the rejected datagram carries an SCMP error message (message type below 128).
+    ///
+    /// Such a datagram must not be answered with another SCMP error.
+    pub fn offending_packet_is_scmp_error(&self) -> bool {
+        match self {
+            PacketPolicyError::MalformedPacket(..) => false,
+            PacketPolicyError::InvalidPathType(view, _)
+            | PacketPolicyError::InvalidSourceAddress(view) => {
+                view.header().next_header() == ProtocolNumber::Scmp
+                    && view.payload().first().is_some_and(|ty| *ty < 128)
+            }
+        }
+    }
 }
 
 impl std::fmt::Debug for PacketPolicyError<'_> {
